@@ -253,6 +253,22 @@ def dead_end(stmts):
     return False
 
 
+def own_stmts(stmts):
+    """the statements of a body, nested blocks included, nested function / class bodies not"""
+    for st in stmts:
+        yield st
+        if isinstance(st, (ast.FunctionDef, ast.AsyncFunctionDef, ast.ClassDef)):
+            continue
+        for f in ("body", "orelse", "finalbody"):
+            sub = getattr(st, f, None)
+            if isinstance(sub, list) and sub and isinstance(sub[0], ast.stmt):
+                yield from own_stmts(sub)
+        for h in getattr(st, "handlers", []) or []:
+            yield from own_stmts(h.body)
+        for c in getattr(st, "cases", []) or []:
+            yield from own_stmts(c.body)
+
+
 def has_node(stmts, kinds):
     return any(isinstance(n, kinds) for n in own_nodes(stmts))
 
@@ -310,6 +326,17 @@ class Tup:
 
     def copy(self):
         return Tup(self.var, self.items, self.kind)
+
+
+class ObjCopy:
+    """a local bound to base.model_copy(update={..}) / copy.copy(base) of an object whose attribute is not re-bound in the function:
+    reading a field gives the update (one variable per key) or the base's field"""
+
+    def __init__(self, var, base, fields):
+        self.var, self.base, self.fields = var, base, dict(fields)
+
+    def copy(self):
+        return ObjCopy(self.var, self.base, self.fields)
 
 
 class Con:
@@ -593,8 +620,11 @@ class FnPE:
         self.locals = bound_names(fn)
         self.generated = set()
         self.mutated = self._mutated_names(fn)
+        self.local_defs = self._local_defs(fn)
         self.closure_used = self._closure_names(fn)
         self.plumbed = plumbed_names(fn, m)
+        for d in self.local_defs.values():
+            self.plumbed |= plumbed_names(d, m)
         self.starred_names = {n.value.id for n in ast.walk(fn) if isinstance(n, ast.Starred) and isinstance(n.ctx, ast.Load) and isinstance(n.value, ast.Name)}
 
     # ------------------------------------------------------------------ pre-scans
@@ -616,9 +646,62 @@ class FnPE:
         out = set()
         for n in own_nodes(fn.body):
             if isinstance(n, (ast.FunctionDef, ast.AsyncFunctionDef, ast.Lambda)):
+                if any(n is d for d in getattr(self, "local_defs", {}).values()):
+                    out |= self._closure_names(n)      # its body is going to be part of this function; what IT closes over stays closed over
+                    continue
                 for x in ast.walk(n):
                     if isinstance(x, ast.Name):
                         out.add(x.id)
+        return out
+
+    def _local_defs(self, fn):
+        """local helper functions (closures) every use of which is a call that makes up a whole statement: they are written out at those
+        calls - reading an enclosing variable at the time of the call is what the closure does as well"""
+        if os.environ.get("VERIF_NOINLINE"):
+            return {}
+        out = {}
+        for d in fn.body:
+            if not isinstance(d, ast.FunctionDef) or d.decorator_list:
+                continue
+            nm = d.name
+            binds = [n for n in ast.walk(fn) if (isinstance(n, ast.Name) and n.id == nm and isinstance(n.ctx, (ast.Store, ast.Del)))
+                     or (isinstance(n, (ast.FunctionDef, ast.AsyncFunctionDef, ast.ClassDef)) and n is not fn and n.name == nm)
+                     or (isinstance(n, ast.arg) and n.arg == nm) or (isinstance(n, (ast.Global, ast.Nonlocal)) and nm in n.names)]
+            if len(binds) != 1 or binds[0] is not d:
+                continue
+            if has_node(d.body, (ast.Yield, ast.YieldFrom, ast.Nonlocal, ast.Global, ast.Await)):
+                continue
+            a = d.args
+            if any(not is_const_lit(x) for x in list(a.defaults) + [k for k in a.kw_defaults if k is not None]):
+                continue
+            if any(isinstance(n, ast.Name) and n.id in (nm, "locals", "vars", "super", "__class__") for n in ast.walk(d)):
+                continue
+            rets = [n for n in own_nodes(d.body) if isinstance(n, ast.Return)]
+            if not ((len(rets) == 1 and d.body[-1] is rets[0]) or not rets):
+                continue
+            out[nm] = d
+        # every reference is the callee of a call that makes up a whole statement, after the definition, among this function's own
+        # statements or those of another such helper (which is written out itself)
+
+        def whole_calls(body, nm):
+            w = set()
+            for st in own_stmts(body):
+                v = st.value if isinstance(st, (ast.Expr, ast.Return, ast.Assign, ast.AnnAssign)) else None
+                if isinstance(v, ast.Call) and isinstance(v.func, ast.Name) and v.func.id == nm:
+                    w.add(id(v.func))
+            return w
+        changed = True
+        while changed:
+            changed = False
+            for nm, d in list(out.items()):
+                whole = whole_calls(fn.body, nm)
+                for nm2, d2 in out.items():
+                    if d2 is not d:
+                        whole |= whole_calls(d2.body, nm)
+                refs = [n for n in ast.walk(fn) if isinstance(n, ast.Name) and n.id == nm and isinstance(n.ctx, ast.Load)]
+                if not refs or any(id(r) not in whole for r in refs) or any(getattr(r, "lineno", 0) <= d.lineno for r in refs):
+                    del out[nm]
+                    changed = True
         return out
 
     def list_is_frozen(self, nm):
@@ -628,6 +711,8 @@ class FnPE:
     def run(self):
         env = {}
         body = self.block(self.fn.body, env)
+        if getattr(self, "dropped_defs", None) and any(isinstance(n, ast.Name) and n.id in self.dropped_defs for st in body for n in ast.walk(st)):
+            raise Bail("a call of a local helper could not be written out")
         body = cleanup(body, self.generated, set(params_of(self.fn)), lambda n_: n_ in self.locals)
         return body or [ast.copy_location(ast.Pass(), self.fn)]
 
@@ -672,12 +757,16 @@ class FnPE:
             return ast.copy_location(t, at)
         if isinstance(v, Con):
             return ast.copy_location(copy.deepcopy(v.node), at)
+        if isinstance(v, ObjCopy):
+            n = name(v.var, at=at)       # the object itself exists (its assignment is kept); whole uses end the tracking
+            n._objcopy = v.var
+            return n
         raise Bail("materialise")
 
     def put_back(self, nm, env, at):
         """re-create the dict / tuple object of a tracked local and stop tracking it"""
         v = env.pop(nm, None)
-        if v is None or isinstance(v, Con):
+        if v is None or isinstance(v, (Con, ObjCopy)):
             return []
         lit = self.materialise(v, at)
         if isinstance(lit, ast.Dict):
@@ -698,7 +787,7 @@ class FnPE:
         """a record that is still whole after the rewrite of a simple statement escapes there: it is put back together
         before the statement and no longer tracked (its keys could change behind our back)"""
         if isinstance(s, (ast.Assign, ast.Expr, ast.AugAssign, ast.AnnAssign, ast.Raise, ast.Assert, ast.Delete)) \
-                and any(isinstance(n, ast.Name) and isinstance(env.get(n.id), Rec) for n in own_nodes([s])):
+                and any(isinstance(n, ast.Name) and isinstance(env.get(n.id), (Rec, ObjCopy)) for n in own_nodes([s])):
             trial = env_copy(env)
             cnt = self.m.counter
             out = self.stmt_core(s, trial)
@@ -707,6 +796,8 @@ class FnPE:
                 for n in ast.walk(o):
                     if isinstance(n, ast.Dict) and getattr(n, "_from", None) and n._from in env and n._from not in esc:
                         esc.append(n._from)
+                    if isinstance(n, ast.Name) and getattr(n, "_objcopy", None) and n._objcopy in env and n._objcopy not in esc:
+                        esc.append(n._objcopy)
             if not esc:
                 env.clear()
                 env.update(trial)
@@ -751,6 +842,9 @@ class FnPE:
             return pre + [m]
         if isinstance(s, ast.Try):
             return self.try_stmt(s, env)
+        if isinstance(s, ast.FunctionDef) and self.local_defs.get(s.name) is s:
+            self.dropped_defs = getattr(self, "dropped_defs", set()) | {s.name}
+            return []
         if isinstance(s, (ast.FunctionDef, ast.AsyncFunctionDef, ast.ClassDef)):
             out = []
             used = {x.id for x in ast.walk(s) if isinstance(x, ast.Name)}
@@ -897,6 +991,15 @@ class FnPE:
                 return out
             if tracked and nm in self.generated and isinstance(value, ast.Constant) and isinstance(value.value, (str, bool, type(None))):
                 env[nm] = Con(value)
+            if isinstance(value, ast.Name) and getattr(value, "_objcopy", None) in env_before and nm in self.locals and nm not in self.closure_used:
+                env[nm] = env_before[value._objcopy]        # another name for the same copy
+                value._objcopy = None
+                out.append(m)
+                return out
+            oc = self.objcopy_of(nm, value, out, s)
+            if oc is not None:
+                env[nm] = oc
+                return out
             if tracked and isinstance(value, ast.Call) and nm in self.starred_names and self.list_is_frozen(nm):
                 # t = f(...) with f returning an n-tuple, t later spread with *t: the items get names
                 n_ = self.ret_arity(value)
@@ -916,6 +1019,70 @@ class FnPE:
             tg.append(self.target(t, env, out))
         m.targets = tg
         return out + [m]
+
+    def objcopy_of(self, nm, value, out, at):
+        """ObjCopy for `nm = base.model_copy(update={..literal keys..})` / `base.model_copy()` / `copy.copy(base)`, base an attribute chain
+        of a never re-bound name whose attributes are not re-bound in this function"""
+        if nm not in self.locals or nm in self.closure_used:
+            return None
+        if getattr(value, "_objcopy", None):
+            return None
+        base, upd = None, None
+        if isinstance(value, ast.Call) and isinstance(value.func, ast.Attribute) and value.func.attr == "model_copy" and not value.args:
+            kws = {k.arg: k.value for k in value.keywords}
+            if set(kws) <= {"update"}:
+                base = value.func.value
+                upd = kws.get("update", ast.Dict(keys=[], values=[]))
+        elif isinstance(value, ast.Call) and isinstance(value.func, ast.Attribute) and isinstance(value.func.value, ast.Name) and value.func.value.id == "copy" \
+                and value.func.attr == "copy" and len(value.args) == 1 and not value.keywords:
+            base, upd = value.args[0], ast.Dict(keys=[], values=[])
+        if base is None or not is_rec_lit(upd) or not (isinstance(base, ast.Attribute) and is_atom(base)):
+            return None
+        root = base
+        while isinstance(root, ast.Attribute):
+            root = root.value
+        if not isinstance(root, ast.Name) or root.id in self.rebound_names():
+            return None
+        text = ast.unparse(base)
+        if any(t_ == text or t_.startswith(text + ".") and False for t_ in self.attr_store_texts()):
+            return None
+        fields = {}
+        for k, v in zip(upd.keys, upd.values):
+            f = self.field(nm, k.value)
+            out.append(ast.copy_location(ast.Assign(targets=[name(f, ast.Store(), at)], value=v), at))
+            fields[k.value] = f
+        keep = copy.deepcopy(value)
+        if fields:
+            keep.keywords = [ast.keyword(arg="update", value=ast.Dict(keys=[const(k, at) for k in fields], values=[name(f, at=at) for f in fields.values()]))]
+        out.append(ast.fix_missing_locations(ast.copy_location(ast.Assign(targets=[name(nm, ast.Store(), at)], value=keep), at)))
+        self.stat("records")
+        return ObjCopy(nm, base, fields)
+
+    def rebound_names(self):
+        if not hasattr(self, "_rebound"):
+            self._rebound = {n.id for n in own_nodes(self.fn.body) if isinstance(n, ast.Name) and isinstance(n.ctx, (ast.Store, ast.Del))}
+        return self._rebound
+
+    def attr_store_texts(self):
+        """texts of the attributes this function (and the helpers inlined into it so far) re-binds: self.run_params = ..."""
+        if not hasattr(self, "_attr_stores"):
+            self._attr_stores = set()
+            self._scan_attr_stores(self.fn.body, {})
+        return self._attr_stores
+
+    def _scan_attr_stores(self, body, ren):
+        for n in own_nodes(body):
+            if isinstance(n, ast.Attribute) and isinstance(n.ctx, (ast.Store, ast.Del)):
+                t = ast.unparse(n)
+                self._attr_stores.add(t)
+                # a helper's `self` / object parameter is the caller's
+                root = n
+                while isinstance(root, ast.Attribute):
+                    root = root.value
+                if isinstance(root, ast.Name) and root.id in ren:
+                    self._attr_stores.add(ren[root.id] + t[len(root.id):])
+            elif isinstance(n, ast.Call) and isinstance(n.func, ast.Name) and n.func.id == "setattr" and len(n.args) == 3:
+                self._attr_stores.add(ast.unparse(n.args[0]) + ".*")
 
     def interesting(self, v, t, env):
         """is splitting a tuple assignment worth it: the value is a literal record / tuple / string or the target is a record field"""
@@ -1099,6 +1266,9 @@ class FnPE:
                 new[k] = vals[0]
                 continue
             if ok and all(isinstance(v, Con) for v in vals) and all(ast.dump(v.node) == ast.dump(vals[0].node) for v in vals):
+                new[k] = vals[0]
+                continue
+            if ok and all(isinstance(v, ObjCopy) for v in vals) and all(v.fields == vals[0].fields and ast.dump(v.base) == ast.dump(vals[0].base) for v in vals):
                 new[k] = vals[0]
                 continue
             for i, v in enumerate(vals):
@@ -1351,6 +1521,13 @@ class FnPE:
         return copy.copy(e)
 
     def x_Attribute(self, e, env, pre):
+        if isinstance(e.ctx, ast.Load) and isinstance(e.value, ast.Name) and isinstance(env.get(e.value.id), ObjCopy):
+            oc = env[e.value.id]
+            if e.attr in oc.fields:
+                return name(oc.fields[e.attr], at=e)
+            if e.attr not in ("model_copy", "model_dump", "dict", "copy", "json", "model_dump_json", "model_fields"):
+                self.stat("folds")
+                return ast.copy_location(ast.Attribute(value=load(oc.base), attr=e.attr, ctx=ast.Load()), e)
         m = self.generic(e, env, pre)
         # self.NAME / cls.NAME / Class.NAME with NAME = <literal tuple / string> in the class body, never stored elsewhere
         if isinstance(e.ctx, ast.Load) and isinstance(m.value, ast.Name) and self.cls is not None:
@@ -1413,6 +1590,10 @@ class FnPE:
                 if keys is not None:
                     self.stat("folds")
                     return const((l.value in keys) == isinstance(op, ast.In), e)
+                if const_key(r):
+                    # "Fn" in "Fn_cov": between two strings `in` looks for a piece of text
+                    self.stat("folds")
+                    return const((l.value in r.value) == isinstance(op, ast.In), e)
             if isinstance(op, (ast.Eq, ast.NotEq)) and isinstance(l, ast.Constant) and isinstance(r, ast.Constant) \
                     and isinstance(l.value, (str, bool, type(None))) and isinstance(r.value, (str, bool, type(None))):
                 self.stat("folds")
@@ -1794,6 +1975,8 @@ class FnPE:
         """(callee FunctionDef, class, receiver expr | None, kind) for a private helper of the same module"""
         f = call.func
         if isinstance(f, ast.Name):
+            if f.id in getattr(self, "local_defs", {}):
+                return self.local_defs[f.id], None, None, "closure"
             if f.id in self.locals or f.id not in self.m.funcs:
                 return None
             return self.m.funcs[f.id], None, None, "function"
@@ -1895,6 +2078,12 @@ class FnPE:
         if r is None:
             return None
         fn, owner, recv, kind = r
+        if kind == "closure":
+            try:
+                single_exit(fn.body, ast.Return, lambda s: [])
+            except Bail:
+                return None
+            return fn, fn, None, "function"
         if not fn.name.startswith("_") or fn.name.startswith("__"):
             return None
         if id(fn) in self.D.stack or fn is self.fn or any(x is fn for x in getattr(self, "inline_stack", [])):
@@ -1967,6 +2156,8 @@ class FnPE:
             if isinstance(n_, ast.Starred) and isinstance(n_.ctx, ast.Load) and isinstance(n_.value, ast.Name) and n_.value.id in mp:
                 self.starred_names.add(mp[n_.value.id])
         self.plumbed |= {mp[k_] for k_ in plumbed_names(callee, self.m) if k_ in mp}
+        self.attr_store_texts()
+        self._scan_attr_stores(callee.body, dict(mp))
         for k in self._mutated_names(callee):
             if k[1] in mp:
                 self.mutated.add((k[0], mp[k[1]]))
